@@ -178,7 +178,8 @@ Record dialect := {
   d_div : Z -> Z -> Z;
   d_str2num : list Z -> numlit;
   d_strlt : list Z -> list Z -> bool;
-  d_otto_cmp : bool          (* otto's transcription of 11.8.5 / 11.9.3 instead of the clause text *)
+  d_otto_cmp : bool;         (* otto's transcription of 11.8.5 / 11.9.3 instead of the clause text *)
+  d_cond_ref : bool          (* c ? t : f yields the chosen branch as a Reference instead of its value *)
 }.
 
 Section WithDialect.
@@ -448,37 +449,112 @@ Definition unop (op : Z) (v : value) : M value :=
 Inductive expr :=
 | ELit (v : value)
 | EVar (n : nat)
-| EUn (op : Z) (e : expr)
+| EUn (op : Z) (e : expr)             (* unop; 4 typeof and 13 delete act on the Reference *)
 | EBin (op : Z) (l r : expr)          (* 0..20 as in binop, 21 &&, 22 ||, 23 comma *)
 | ECond (c t f : expr)
 | EAsg (n : nat) (e : expr)
 | ECmp (op : Z) (n : nat) (e : expr)  (* var op= e, op in 0..10 *)
 | EInc (pre dec : bool) (n : nat)
 | ELog (k : Z) (e : expr)             (* (log.push(k), e) *)
-| ESetM (id which : Z) (m : meth).    (* void (o.valueOf = function ...) / void (delete o.valueOf) *)
+| ESetM (id which : Z) (m : meth)     (* void (o.valueOf = function ...) / void (delete o.valueOf) *)
+| EUnres                              (* an identifier that resolves to nothing: nope *)
+| EMem (id k : Z) (init : prim)       (* o.x (k = 2, a data property that starts as init) / o.f (k = 3, the this-probe method) *)
+| ECall (e : expr).                   (* (e)() *)
 
-Fixpoint eval (e : expr) : M value :=
-  match e with
-  | ELit v => ret v
-  | EVar n => getvar n
-  | EUn op e1 => v <- eval e1 ;; unop op v
-  | EBin op l r =>
-      if op =? 21 then lv <- eval l ;; if to_boolean_v lv then eval r else ret lv
-      else if op =? 22 then lv <- eval l ;; if to_boolean_v lv then ret lv else eval r
-      else if op =? 23 then _ <- eval l ;; eval r
-      else
-        lv <- eval l ;; rv <- eval r ;; binop op lv rv
-  | ECond c t f => cv <- eval c ;; if to_boolean_v cv then eval t else eval f
-  | EAsg n e1 => v <- eval e1 ;; _ <- setvar n v ;; ret v
-  | ECmp op n e1 =>
-      lv <- getvar n ;; rv <- eval e1 ;; x <- binop op lv rv ;; _ <- setvar n x ;; ret x
-  | EInc pre dec n =>
-      v <- getvar n ;; a <- to_number_v v ;;
-      let b := fadd a (of_int (if dec then -1 else 1)) in
-      _ <- setvar n (num b) ;; ret (num (if pre then b else a))
-  | ELog k e1 => _ <- logk k ;; eval e1
-  | ESetM id which m => _ <- setmeth id which m ;; ret (VP PUndef)
+(* 8.7: what an expression evaluates to: a value or a Reference *)
+Inductive rv :=
+| RVal (v : value)
+| RUnres                              (* unresolvable Reference *)
+| RVar (n : nat)                      (* environment-record Reference to a declared variable *)
+| RMem (id k : Z) (init : prim).      (* property Reference with base object id *)
+
+(* the function stored as o.f: returns the id of its this value, 0 for the global object *)
+Definition probe_fn : value := VO (Build_obj 70 2 MNone MNone [] [89; 90] 1070).
+
+(* properties x (2) and f (3) live in the same table as the conversion methods:
+   MQuiet (MPrim p) = holds p, MInherit = deleted *)
+Definition getmem (id k : Z) (init : prim) : M value :=
+  fun st => match find (fun e => (fst (fst e) =? id) && (snd (fst e) =? k)) (tbl st) with
+            | Some (_, MQuiet (MPrim p)) => (Ok (VP p), st)
+            | Some _ => (Ok (VP PUndef), st)
+            | None => (Ok (if k =? 3 then probe_fn else VP init), st)
+            end.
+
+Definition tag_ReferenceError : Z := 4.
+
+(* 8.7.1 GetValue *)
+Definition getval (r : rv) : M value :=
+  match r with
+  | RVal v => ret v
+  | RUnres => throw tag_ReferenceError
+  | RVar n => getvar n
+  | RMem id k init => getmem id k init
   end.
+
+Definition gv (m : M rv) : M value := bind m getval.
+Definition rval (m : M value) : M rv := bind m (fun v => ret (RVal v)).
+
+Fixpoint evalr (e : expr) : M rv :=
+  match e with
+  | ELit v => ret (RVal v)
+  | EVar n => ret (RVar n)
+  | EUnres => ret RUnres
+  | EMem id k init => ret (RMem id k init)
+  | EUn op e1 =>
+      if op =? 4 then
+        (* 11.4.3: typeof of an unresolvable Reference is "undefined", no GetValue *)
+        r <- evalr e1 ;;
+        match r with
+        | RUnres => ret (RVal (VP (PStr s_undefined)))
+        | _ => v <- getval r ;; ret (RVal (VP (PStr (typeof_v v))))
+        end
+      else if op =? 13 then
+        (* 11.4.1 delete: not a Reference / unresolvable -> true; a declared variable -> false;
+           a configurable property is removed -> true *)
+        r <- evalr e1 ;;
+        match r with
+        | RMem id k _ => _ <- setmeth id k MInherit ;; ret (RVal (boolv true))
+        | RVar _ => ret (RVal (boolv false))
+        | _ => ret (RVal (boolv true))
+        end
+      else rval (v <- gv (evalr e1) ;; unop op v)
+  | EBin op l r =>
+      (* 11.11, 11.14: && || and the comma operator return GetValue of the selected operand *)
+      if op =? 21 then rval (lv <- gv (evalr l) ;; if to_boolean_v lv then gv (evalr r) else ret lv)
+      else if op =? 22 then rval (lv <- gv (evalr l) ;; if to_boolean_v lv then ret lv else gv (evalr r))
+      else if op =? 23 then rval (_ <- gv (evalr l) ;; gv (evalr r))
+      else rval (lv <- gv (evalr l) ;; rv <- gv (evalr r) ;; binop op lv rv)
+  | ECond c t f =>
+      cv <- gv (evalr c) ;;
+      if d_cond_ref d then
+        (* cmplEvaluateNodeConditionalExpression returns the chosen branch unresolved *)
+        (if to_boolean_v cv then evalr t else evalr f)
+      else
+        (* 11.12: Return GetValue(trueRef / falseRef) *)
+        rval (if to_boolean_v cv then gv (evalr t) else gv (evalr f))
+  | EAsg n e1 => rval (v <- gv (evalr e1) ;; _ <- setvar n v ;; ret v)
+  | ECmp op n e1 =>
+      rval (lv <- getvar n ;; rv <- gv (evalr e1) ;; x <- binop op lv rv ;; _ <- setvar n x ;; ret x)
+  | EInc pre dec n =>
+      rval (v <- getvar n ;; a <- to_number_v v ;;
+            let b := fadd a (of_int (if dec then -1 else 1)) in
+            _ <- setvar n (num b) ;; ret (num (if pre then b else a)))
+  | ELog k e1 => rval (_ <- logk k ;; gv (evalr e1))
+  | ESetM id which m => rval (_ <- setmeth id which m ;; ret (VP PUndef))
+  | ECall e1 =>
+      (* 11.2.3: this is the base of a property Reference, the global object otherwise *)
+      r <- evalr e1 ;; f <- getval r ;;
+      match f with
+      | VO o =>
+          if o_id o =? 70 then
+            ret (RVal (num (of_int (match r with RMem id _ _ => id | _ => 0 end))))
+          else if (o_cls o =? 2) || (o_cls o =? 4) then ret (RVal (VP PUndef))   (* function(){} *)
+          else throw tag_TypeError
+      | VP _ => throw tag_TypeError
+      end
+  end.
+
+Definition eval (e : expr) : M value := gv (evalr e).
 
 End WithDialect.
 
@@ -487,14 +563,14 @@ End WithDialect.
 Definition spec_d : dialect := {|
   d_int32 := to_int32; d_uint32 := to_uint32; d_uint16 := to_uint16; d_integer := to_integer; d_div := fdiv;
   d_str2num := string_to_number; d_strlt := units_lt;
-  d_otto_cmp := false |}.
+  d_otto_cmp := false; d_cond_ref := false |}.
 
 Definition model_str2num (s : list Z) : numlit := NLVal (parse_number s).
 
 Definition model_d : dialect := {|
   d_int32 := m_to_int32; d_uint32 := m_to_uint32; d_uint16 := m_to_uint16; d_integer := m_to_integer; d_div := m_divide;
   d_str2num := model_str2num; d_strlt := m_str_lt;
-  d_otto_cmp := true |}.
+  d_otto_cmp := true; d_cond_ref := true |}.
 
 (* observation of one run: status (0 normal, else the thrown tag), result, final variables, log *)
 Definition obs := (Z * oval * list oval * list Z)%type.
